@@ -301,7 +301,51 @@ def check_text(text, modes=("schemaless", "recording")):
         r = _cmp(expected_recording(text), observe_recording(text), "recording")
         if r:
             out.append(r)
+        if "%" not in text and any(c in text for c in ODD_LINE_CHARS):
+            # the same text as a real file that the loader opens itself: characters that some
+            # readers take for line ends (a lone CR, FF, NEL, U+2028 ...) are ordinary characters
+            r = _cmp(expected_recording(text), observe_recording_file(text), "recording-file")
+            if r:
+                out.append(r)
     return out
+
+
+ODD_LINE_CHARS = "\r\x0b\x0c\x1c\x1d\x1e\x85\u2028\u2029"
+_TMP = {}
+
+
+def observe_recording_file(text):
+    import os
+    import tempfile
+    ZConfig = _mods()
+    import ZConfig.loader
+    d = _TMP.get(os.getpid())
+    if d is None or not os.path.isdir(d):
+        d = _TMP[os.getpid()] = tempfile.mkdtemp(prefix="zcv-c03-")
+    path = os.path.join(d, "main.conf")
+    with open(path, "wb") as f:
+        f.write(text.encode("utf-8"))
+    if "loader" not in _TMP:
+        class _Opener(ZConfig.loader.BaseLoader):
+            def loadResource(self, resource):      # never used: the parser is driven by hand
+                raise NotImplementedError
+        _TMP["loader"] = _Opener
+    loader = _TMP["loader"]()
+    ctx = _Ctx()
+    try:
+        r = loader.openResource(loader.normalizeURL(path))
+        try:
+            p = ZConfig.cfgparser.ZConfigParser(r, ctx)
+            p.parse(_Sec(ctx.log))
+        finally:
+            r.close()
+    except ZConfig.ConfigurationSyntaxError:
+        return ("reject",)
+    except ZConfig.ConfigurationError as e:
+        return ("reject-other", type(e).__name__)
+    except Exception as e:  # noqa
+        return ("internal", type(e).__name__, repr(e))
+    return ("ok", ctx.log, dict(p.defines))
 
 
 def evaluate(case):
